@@ -15,6 +15,7 @@ import random
 from sim import core, canon, ops, histories, simsched
 from checks.common import PoolCheck, jcopy, short
 from pool.pool import schema_class
+from pool import families as families_mod
 
 POLICIES = (
     {'kind': 'uniform', 'p': 0.001}, {'kind': 'uniform', 'p': 0.01}, {'kind': 'uniform', 'p': 0.05},
@@ -71,6 +72,22 @@ class C18(PoolCheck):
             self.unbuilt[key] = e.family.assemble(os.path.dirname(e.main_path), schema_class(e.version), build=False)
         res = core.parallel_map(lambda k: jcopy(histories.globals_signature(self.entries[k].schema)), self.keys)
         self.globals = dict(zip(self.keys, res))
+        # the same twins with use_meta=False: their maps own the meta-schema documents too, registered by every build
+        self.unbuilt_nometa = {}
+        for key in self.keys:
+            e = self.entries[key]
+            if type(e.family).assemble is families_mod.Family.assemble and not getattr(e.family, 'defused', False):
+                try:
+                    self.unbuilt_nometa[key] = schema_class(e.version)(e.main_path, build=False, use_meta=False)
+                except Exception:
+                    pass
+
+        def seq_sig(k):
+            sch = self.unbuilt_nometa[k]
+            sch.build()
+            return jcopy(histories.globals_signature(sch))
+        nk = sorted(self.unbuilt_nometa)
+        self.globals_nometa = dict(zip(nk, core.parallel_map(seq_sig, nk)))     # built in forked children only
 
     def n_cases(self, tier):
         return 2500 if tier == 'quick' else 100000
@@ -117,9 +134,20 @@ class C18(PoolCheck):
         # was tried and withdrawn: on the unchanged tree such a user breaks the builders themselves - lazy component
         # builds outside the lock end in XMLSchemaCircularityError - and neither the statement nor the library's API
         # covers using a build=False schema before its build() has returned; see DESIGN.md 9)
+        nometa = bool(scenario == 'racing_build' and key in self.unbuilt_nometa and rng.random() < 0.25)
+        if nometa:
+            # schema-level find() lists the global elements of the maps: with use_meta=False those include the
+            # meta-schema's, so that probe has no counterpart in the reference table
+            for prog in programs:
+                for op in prog:
+                    if op['api'] == 'find':
+                        op['api'] = 'iter_errors'
+            if epilogue['api'] == 'find':
+                epilogue = dict(epilogue, api='iter_errors')
         return {'entry': key, 'scenario': scenario, 'programs': programs, 'epilogue': epilogue, 'build_first': build_first,
                 'policy': policy, 'sseed': rng.randrange(1 << 30), 'knobs': histories.gen_knobs(rng),
-                'lines': rng.random() < (0.25 if self.tier == 'quick' else 0.5)}
+                'lines': rng.random() < (0.25 if self.tier == 'quick' else 0.5),
+                'nometa': nometa}
 
     # ------------------------------------------------------------------
     def run_case(self, case):
@@ -127,6 +155,10 @@ class C18(PoolCheck):
         e = self.entries[case['entry']]
         scenario = case['scenario']
         schema = self.unbuilt[case['entry']] if scenario == 'racing_build' else e.schema
+        ref_globals = self.globals[case['entry']]
+        if scenario == 'racing_build' and case.get('nometa'):
+            schema = self.unbuilt_nometa[case['entry']]
+            ref_globals = self.globals_nometa[case['entry']]
         histories.apply_knobs(schema, case.get('knobs'))
         sched = simsched.Scheduler(random.Random(case['sseed']), case['policy'], replay=case.get('schedule'),
                                    line_level=bool(case.get('lines')))
@@ -191,6 +223,9 @@ class C18(PoolCheck):
             env.cleanup()
 
         sigbase = {'family': e.family.name, 'scenario': scenario}
+        if case.get('nometa'):
+            sigbase['use_meta'] = False
+            counters['racing_build_use_meta_false'] = 1
         detail_base = {'case': case, 'schedule_len': len(sched.segments), 'points': sched.points}
         if not ok:
             violations.append({'signature': dict(sigbase, clause='deadlock', locks=sorted(
@@ -233,9 +268,9 @@ class C18(PoolCheck):
                     break
             if not violations and scenario == 'racing_build':
                 sig_now = jcopy(histories.globals_signature(schema))
-                if sig_now != self.globals[case['entry']]:
+                if sig_now != ref_globals:
                     violations.append({'signature': dict(sigbase, clause='built-state-differs-from-sequential-build'),
-                                       'detail': dict(detail_base, n_now=len(sig_now), n_ref=len(self.globals[case['entry']]))})
+                                       'detail': dict(detail_base, n_now=len(sig_now), n_ref=len(ref_globals))})
                 if load_calls[0] != 1:
                     violations.append({'signature': dict(sigbase, clause='build-body-ran-not-exactly-once',
                                                          times=load_calls[0]),
